@@ -107,6 +107,11 @@ func Run(s *simrt.Sim, a *harness.Args, r *harness.Result) {
 	s.TimeLadder = []time.Duration{time.Second, 5 * time.Second, 6 * time.Second}
 	s.TimeBudget = 4
 	s.MaxSteps = 400000
+	if manyKeys {
+		// 20 013 keys, each with its own limiter objects: the number of
+		// synchronisation points per key is an implementation detail
+		s.MaxSteps = 4000000
+	}
 
 	var berr error
 	booted := false
@@ -178,6 +183,13 @@ func Run(s *simrt.Sim, a *harness.Args, r *harness.Result) {
 		if p.Func != "HARNESS" {
 			s.Violate("C11/panic/"+p.Func, "task %s panicked: %s", p.Task, p.Value)
 		}
+	}
+	if w.done != total && len(s.Violations()) == 0 && res == simrt.Budget && manyKeys {
+		// the step cap ended a key flood that was still making progress: the
+		// run says nothing (a hang shows as Idle with parked tasks)
+		s.Stat("flood_cut_by_step_cap")
+		r.Shape = "flood-cut"
+		return
 	}
 	if w.done != total && len(s.Violations()) == 0 {
 		s.Violate("C11/hang", "only %d of %d deliveries finished (%v); parked=%v", w.done, total, res, s.ParkedKeys())
